@@ -419,6 +419,12 @@ pub fn replace_expr(p: &Program, site: usize, expr: Expr) -> Program {
     q
 }
 
+/// the expressions at all expression sites, in site order (clones)
+pub fn exprs(p: &Program) -> Vec<Expr> {
+    let (_, sites) = sites(p);
+    (0..sites.len()).filter_map(|i| expr_at(p, i)).collect()
+}
+
 pub fn expr_at(p: &Program, site: usize) -> Option<Expr> {
     let mut q = p.clone();
     let mut w = W { act: Action::GetExpr { target: site, out: None, counter: 0 } };
